@@ -92,7 +92,7 @@ def main():
     for k, b in enumerate(buckets):
         if not b:
             continue
-        root = "/tmp/farm_%d" % k
+        root = "/tmp/farm_%s_%d" % (mode, k)
         os.makedirs(root, exist_ok=True)
         sh("rsync -a --delete --exclude .git --exclude 'build/replay*' --exclude build/xtrace %s/ %s/verif/" % (VERIF, root))
         repo = os.path.join(root, "repo")
